@@ -121,6 +121,7 @@ const (
 
 // World is one simulated deployment.
 type World struct {
+	AuthSlug string // provider slug of the running authenticator
 	Cfg   Config
 	Net   *simnet.Net
 	Log   *Log
@@ -507,6 +508,7 @@ func (w *World) BootProxy() error {
 // BootAuth boots the real sso-auth, as cmd/sso-auth/main.go does.
 func (w *World) BootAuth() error {
 	cfg := w.Cfg
+	w.AuthSlug = cfg.Slug
 	ac := auth.DefaultAuthConfig()
 	pcfg := auth.ProviderConfig{
 		ProviderType: cfg.Provider,
@@ -580,7 +582,16 @@ func safely(f func() error) (err error) {
 }
 
 // AuthCookieName is the authenticator's session cookie name for this world.
-func (w *World) AuthCookieName() string { return AuthCookieBase + "_" + w.Cfg.Slug }
+func (w *World) AuthCookieName() string { return AuthCookieBase + "_" + w.authSlug() }
+
+// authSlug is the provider slug the running authenticator was booted with (a later proxy-side
+// configuration change does not change it until the authenticator itself restarts).
+func (w *World) authSlug() string {
+	if w.AuthSlug != "" {
+		return w.AuthSlug
+	}
+	return w.Cfg.Slug
+}
 
 // Browser returns (creating on first use) the named browser.
 func (w *World) Browser(name string) *Browser {
